@@ -1,4 +1,5 @@
 import PPProofs.Props.C18
+import PPProofs.Lemmas.RegexIpv4
 /-!
 # C18 (continued) — language theorems for `identifier` and `ipv4_address`
 
@@ -74,5 +75,194 @@ example : ¬ IsIdentifier "9lives".toList := fun h => absurd ((identifier_langua
 example : ¬ identifierAst.Accepts "a-b".toList := by decide +kernel
 example : ¬ identifierAst.Accepts "a×b".toList := by decide +kernel
 example : ¬ identifierAst.Accepts "".toList := by decide +kernel
+
+/-! ## ipv4_address  (`(25[0-5]|2[0-4][0-9]|1?[0-9]{1,2})(\.(25[0-5]|2[0-4][0-9]|1?[0-9]{1,2})){3}`)
+
+`ipv4_language_partial` (in `Props/C18.lean`) is the direction `Accepts → IsIpv4`.  The converse needs the
+preferred-match argument: for the first three octets every intermediate position other than "just before the dot"
+makes the continuation (`\.` …) fail, so the preferred overall match goes through the full octet; for the last octet
+the preferred octet match is the whole octet (checked for all 1110 digit strings of length ≤ 3 by kernel evaluation). -/
+
+theorem between12_one (cs : CSet) (c : Char) (e : List Char) (h : cs.has c = true) :
+    e ∈ (between 1 2 (.set cs)).ends (c :: e) := by
+  unfold between
+  rw [ends_rep_set]
+  cases e with
+  | nil => simp [repSet, h]
+  | cons c2 t =>
+    by_cases h2 : cs.has c2 = true
+    · simp [repSet, h, h2, repSet_zero_zero]
+    · simp [repSet, h, h2]
+
+theorem between12_two (cs : CSet) (c1 c2 : Char) (e : List Char) (h1 : cs.has c1 = true) (h2 : cs.has c2 = true) :
+    e ∈ (between 1 2 (.set cs)).ends (c1 :: c2 :: e) := by
+  unfold between
+  rw [ends_rep_set]
+  simp [repSet, h1, h2, repSet_zero_zero]
+
+/-- every octet of the pattern's policy is *a* way of matching the octet sub-pattern (any continuation) -/
+theorem mem_octet_complete (o e : List Char) (ho : IsOctet o) : e ∈ octetAst.ends (o ++ e) := by
+  obtain ⟨hd, hshape⟩ := ho
+  have hdig : ∀ c ∈ o, (CSet.mk false [.r '0' '9'] false).has c = true := fun c hc => (has_range _ _ _).2 (hd c hc)
+  unfold octetAst
+  simp only [seqs]
+  rw [mem_alt_ends, mem_alt_ends]
+  have skip1 : ∀ x, x ∈ (between 1 2 (cls [.r '0' '9'])).ends (o ++ e) →
+      x ∈ (seq (opt (lit '1')) (between 1 2 (cls [.r '0' '9']))).ends (o ++ e) := by
+    intro x hx
+    rw [mem_seq_ends]
+    exact ⟨o ++ e, by unfold lit; rw [mem_opt_set_ends]; exact Or.inl rfl, hx⟩
+  rcases hshape with h1 | h2 | ⟨d1, d2, rfl⟩ | ⟨d1, d2, rfl, hp⟩
+  · -- one digit
+    match o, h1, hdig with
+    | [c], _, hdig =>
+      right; right
+      apply skip1
+      exact between12_one _ c e (hdig c (by simp))
+  · match o, h2, hdig with
+    | [c1, c2], _, hdig =>
+      right; right
+      apply skip1
+      exact between12_two _ c1 c2 e (hdig c1 (by simp)) (hdig c2 (by simp))
+  · right; right
+    rw [mem_seq_ends]
+    refine ⟨d1 :: d2 :: e, ?_, between12_two _ d1 d2 e (hdig d1 (by simp)) (hdig d2 (by simp))⟩
+    unfold lit; rw [mem_opt_set_ends]
+    exact Or.inr ⟨'1', rfl, by decide⟩
+  · rcases hp with hp | ⟨rfl, hp⟩
+    · right; left
+      unfold lit cls
+      rw [mem_seq_ends]
+      refine ⟨d1 :: d2 :: e, (mem_set_ends _ _ _).2 ⟨'2', rfl, by decide⟩, ?_⟩
+      rw [mem_seq_ends]
+      refine ⟨d2 :: e, (mem_set_ends _ _ _).2 ⟨d1, rfl, ?_⟩, (mem_set_ends _ _ _).2 ⟨d2, rfl, hdig d2 (by simp)⟩⟩
+      exact (has_range _ _ _).2 ⟨(hd d1 (by simp)).1, hp⟩
+    · left
+      unfold lit cls
+      rw [mem_seq_ends]
+      refine ⟨'5' :: d2 :: e, (mem_set_ends _ _ _).2 ⟨'2', rfl, by decide⟩, ?_⟩
+      rw [mem_seq_ends]
+      refine ⟨d2 :: e, (mem_set_ends _ _ _).2 ⟨'5', rfl, by decide⟩, (mem_set_ends _ _ _).2 ⟨d2, rfl, ?_⟩⟩
+      exact (has_range _ _ _).2 ⟨(hd d2 (by simp)).1, hp⟩
+
+/-- at the end of the text the preferred match of the octet sub-pattern is the whole octet:
+    kernel evaluation over all digit strings of length ≤ 3 -/
+theorem octet_head_enum : ∀ a ∈ digitChars, ∀ b ∈ digitChars, ∀ c ∈ digitChars,
+    (octetAst.ends [a]).head? = some [] ∧ (octetAst.ends [a, b]).head? = some [] ∧
+      ((a = '1' ∨ (a = '2' ∧ (b ≤ '4' ∨ (b = '5' ∧ c ≤ '5')))) → (octetAst.ends [a, b, c]).head? = some []) := by
+  decide +kernel
+
+theorem octet_head_last (o : List Char) (ho : IsOctet o) : (octetAst.ends o).head? = some [] := by
+  obtain ⟨hd, hshape⟩ := ho
+  have hm : ∀ c ∈ o, c ∈ digitChars := fun c hc => mem_digitChars c (hd c hc).1 (hd c hc).2
+  have z : '0' ∈ digitChars := by decide
+  rcases hshape with h1 | h2 | ⟨d1, d2, rfl⟩ | ⟨d1, d2, rfl, hp⟩
+  · match o, h1, hm with
+    | [c], _, hm => exact (octet_head_enum c (hm c (by simp)) '0' z '0' z).1
+  · match o, h2, hm with
+    | [c1, c2], _, hm => exact (octet_head_enum c1 (hm c1 (by simp)) c2 (hm c2 (by simp)) '0' z).2.1
+  · exact (octet_head_enum '1' (by decide) d1 (hm d1 (by simp)) d2 (hm d2 (by simp))).2.2 (Or.inl rfl)
+  · exact (octet_head_enum '2' (by decide) d1 (hm d1 (by simp)) d2 (hm d2 (by simp))).2.2 (Or.inr ⟨rfl, hp⟩)
+
+theorem dotOctet_ends (s : List Char) :
+    dotOctet.ends s = match s with
+      | [] => []
+      | c :: t => if c = '.' then octetAst.ends t else [] := by
+  have : dotOctet.ends s = (seq (.set ⟨false, [.c '.'], false⟩) octetAst).ends s := by
+    unfold dotOctet lit; simp [Re.ends]
+  rw [this, ends_seq_set]
+  cases s with
+  | nil => rfl
+  | cons c t =>
+    simp only
+    by_cases hc : c = '.'
+    · rw [if_pos hc, if_pos ((has_lit _ _).2 hc)]
+    · rw [if_neg hc, if_neg (fun h => hc ((has_lit _ _).1 h))]
+
+/-- the preferred way through an octet that is followed by a dot, for a continuation that needs the dot -/
+theorem octet_then_dot (o rest : List Char) (ho : IsOctet o) (k : List Char → List (List Char))
+    (hk : ∀ c t, IsDigit c → k (c :: t) = []) :
+    ((octetAst.ends (o ++ '.' :: rest)).flatMap k).head? = (k ('.' :: rest)).head? := by
+  apply head?_flatMap_unique k ('.' :: rest) _ (mem_octet_complete o _ ho)
+  intro e he
+  obtain ⟨w, hw, hwo⟩ := mem_octet _ _ he
+  have hnd : ¬ IsDigit '.' := by unfold IsDigit; decide
+  rcases List.append_eq_append_iff.1 hw with ⟨a', h1, h2⟩ | ⟨c', h1, h2⟩
+  · -- w = o ++ a', '.' :: rest = a' ++ e
+    cases a' with
+    | nil => left; simpa using h2.symm
+    | cons x a'' =>
+      simp at h2
+      have : x = '.' := h2.1.symm
+      subst this
+      exact absurd (hwo.1 '.' (by rw [h1]; simp)) hnd
+  · -- o = w ++ c', e = c' ++ '.' :: rest
+    cases c' with
+    | nil => left; simpa using h2
+    | cons x c'' =>
+      right
+      rw [h2]
+      exact hk x _ (ho.1 x (by rw [h1]; simp))
+
+theorem dotOctet_noDigit : ∀ c t, IsDigit c → dotOctet.ends (c :: t) = [] := by
+  intro c t h
+  rw [dotOctet_ends]
+  have : c ≠ '.' := by rintro rfl; revert h; unfold IsDigit; decide
+  simp [this]
+
+theorem ipv4_complete (s : List Char) (h : IsIpv4 s) : ipv4Ast.Accepts s := by
+  obtain ⟨o1, o2, o3, o4, rfl, h1, h2, h3, h4⟩ := h
+  unfold Re.Accepts
+  have hdef : ipv4Ast = seq (grp 1 octetAst) (.rep dotOctet 3 (some 3) true) := rfl
+  have e3 : ∀ x, (Re.rep dotOctet 3 (some 3) true).ends x =
+      (dotOctet.ends x).flatMap (fun e => (Re.rep dotOctet 2 (some 2) true).ends e) :=
+    fun x => ends_rep_exact_succ dotOctet true 2 x (dotOctet_progress x)
+  have e2 : ∀ x, (Re.rep dotOctet 2 (some 2) true).ends x =
+      (dotOctet.ends x).flatMap (fun e => (Re.rep dotOctet 1 (some 1) true).ends e) :=
+    fun x => ends_rep_exact_succ dotOctet true 1 x (dotOctet_progress x)
+  have e1 : ∀ x, (Re.rep dotOctet 1 (some 1) true).ends x =
+      (dotOctet.ends x).flatMap (fun e => (Re.rep dotOctet 0 (some 0) true).ends e) :=
+    fun x => ends_rep_exact_succ dotOctet true 0 x (dotOctet_progress x)
+  have k3 : ∀ c t, IsDigit c → (Re.rep dotOctet 3 (some 3) true).ends (c :: t) = [] := by
+    intro c t hc; rw [e3, dotOctet_noDigit c t hc]; rfl
+  have k2 : ∀ c t, IsDigit c → (Re.rep dotOctet 2 (some 2) true).ends (c :: t) = [] := by
+    intro c t hc; rw [e2, dotOctet_noDigit c t hc]; rfl
+  have k1 : ∀ c t, IsDigit c → (Re.rep dotOctet 1 (some 1) true).ends (c :: t) = [] := by
+    intro c t hc; rw [e1, dotOctet_noDigit c t hc]; rfl
+  have hg : ∀ x, (grp 1 octetAst).ends x = octetAst.ends x := fun x => by simp [Re.ends]
+  rw [hdef]
+  show (((grp 1 octetAst).ends _).flatMap (fun e => (Re.rep dotOctet 3 (some 3) true).ends e)).head? = _
+  rw [hg, octet_then_dot o1 _ h1 _ k3]
+  rw [e3, dotOctet_ends]
+  simp only [if_true]
+  rw [octet_then_dot o2 _ h2 _ k2]
+  rw [e2, dotOctet_ends]
+  simp only [if_true]
+  rw [octet_then_dot o3 _ h3 _ k1]
+  rw [e1, dotOctet_ends]
+  simp only [if_true]
+  have : (fun e => (Re.rep dotOctet 0 (some 0) true).ends e) = fun e => [e] := by
+    funext e; exact ends_rep_exact_zero _ _ _
+  rw [this, flatMap_singleton']
+  exact octet_head_last o4 h4
+
+/-- documented syntax (with the pattern's leading-zero policy) — full strength, both directions -/
+theorem ipv4_language (s : List Char) : ipv4Ast.Accepts s ↔ IsIpv4 s :=
+  ⟨ipv4_language_partial s, ipv4_complete s⟩
+
+example : IsIpv4 "25.1.1.1".toList := (ipv4_language _).1 (by decide +kernel)
+example : ipv4Ast.Accepts "255.255.255.255".toList := by decide +kernel
+example : ¬ IsIpv4 "256.1.1.1".toList := fun h => absurd ((ipv4_language _).2 h) (by decide +kernel)
+example : ¬ IsIpv4 "1.2.3.45x".toList := fun h => absurd ((ipv4_language _).2 h) (by decide +kernel)
+example : ¬ IsIpv4 "1.2.3".toList := fun h => absurd ((ipv4_language _).2 h) (by decide +kernel)
+/-- the hypothesis of the `←` direction is satisfiable directly (not through the theorem) -/
+example : IsIpv4 "192.168.0.25".toList :=
+  ⟨"192".toList, "168".toList, "0".toList, "25".toList, by decide,
+    ⟨by decide, Or.inr (Or.inr (Or.inl ⟨'9', '2', rfl⟩))⟩, ⟨by decide, Or.inr (Or.inr (Or.inl ⟨'6', '8', rfl⟩))⟩,
+    ⟨by decide, Or.inl rfl⟩, ⟨by decide, Or.inr (Or.inl rfl)⟩⟩
+example : ipv4Ast.Accepts "192.168.0.25".toList := (ipv4_language _).2
+  ⟨"192".toList, "168".toList, "0".toList, "25".toList, by decide,
+    ⟨by decide, Or.inr (Or.inr (Or.inl ⟨'9', '2', rfl⟩))⟩, ⟨by decide, Or.inr (Or.inr (Or.inl ⟨'6', '8', rfl⟩))⟩,
+    ⟨by decide, Or.inl rfl⟩, ⟨by decide, Or.inr (Or.inl rfl)⟩⟩
 
 end PP.C18
